@@ -6,6 +6,7 @@
 #include <ksi/tree_builder.h>
 #include <ksi/hashchain.h>
 #include "hx.h"
+#include "fault.h"
 
 static KSI_CTX *ctx;
 
@@ -27,17 +28,18 @@ static void print_link(KSI_HashChainLink *l) {
 }
 
 int main(void) {
-	char *line = NULL; size_t cap = 0; char **tok = malloc(sizeof(char *) * 1024);
+	char *line = NULL; size_t cap = 0; char **tok = H_MALLOC(sizeof(char *) * 1024);
 	if (KSI_CTX_new(&ctx) != KSI_OK) return 2;
 	while (getline(&line, &cap, stdin) > 0) {
 		int n, i, rc, nl = 0;
 		KSI_TreeBuilder *b = NULL; KSI_TreeLeafHandle *h[1024]; int ishash[1024];
 		line[strcspn(line, "\n")] = 0;
 		n = hx_split(line, tok, 1024);
+		if (n > 0 && fault_cmd(tok, n)) { fflush(stdout); continue; }
 		if (n < 3 || strcmp(tok[0], "TB")) continue;
 		memset(h, 0, sizeof(h));
 		rc = KSI_TreeBuilder_new(ctx, atoi(tok[1]), &b);
-		if (rc != KSI_OK) { printf("T new=%d\n", rc); continue; }
+		if (rc != KSI_OK) { printf("T new=%d\n", rc); fflush(stdout); continue; }
 		b->maxTreeLevel = (short)atoi(tok[2]);
 		printf("T add=");
 		for (i = 3; i < n; i++, nl++) {
